@@ -45,7 +45,7 @@ def main():
         rc, out = sh("go test -vet=off -count=1 -run '%s' ./%s" % (runpat, sub), cwd=wt)
         res["clean_demo_pass"] = rc == 0
         os.remove(dst)
-        rc, out = sh("git apply %s" % patch, cwd=wt)
+        rc, out = sh("git apply %s || git apply --3way %s" % (patch, patch), cwd=wt)
         res["patch_applies"] = rc == 0
         if rc != 0:
             res["apply_err"] = out[-500:]
@@ -67,7 +67,7 @@ def main():
         if out.strip():
             print("refusing: /repo not clean")
             sys.exit(2)
-        rc, out = sh("git -C /repo apply %s" % os.path.abspath(patch))
+        rc, out = sh("git -C /repo apply %s || git -C /repo apply --3way %s" % (os.path.abspath(patch), os.path.abspath(patch)))
         try:
             for c in checks:
                 t = time.time()
@@ -78,7 +78,7 @@ def main():
                 if rc == 2:
                     detected[c]["tail"] = out[-600:]
         finally:
-            sh("git -C /repo checkout -- .")
+            sh("git -C /repo reset -q --hard HEAD")
             sh("git -C /repo clean -fdq")
     res["checks"] = detected
     out_dir = os.path.join(VERIF, "seeded", name)
